@@ -367,6 +367,13 @@ def run_case(case, tier):
     sep_ba = [] if (ends_with_terminal_oxygen(b) and rng.random() < 0.5) else ter
     if not sep_ab or not sep_ba:
         classes.append("parts-joined-without-ter")
+    if rng.random() < 0.25:
+        # two entries joined the way `cat` does it: the first one's trailer (END, with or without MASTER) and the
+        # second one's header stand between the parts; none of these records is one of the four that count
+        cat = [pdbio.raw(x) for x in rng.choice((["END"], ["MASTER        0    0    0    0    0    0    0    0    0    0    0    0", "END"],
+                                                 ["END   "], ["END", "HEADER    SECOND ENTRY", "CRYST1    1.000    1.000    1.000  90.00  90.00  90.00 P 1           1"]))]
+        sep_ab, sep_ba = sep_ab + cat, sep_ba + cat
+        classes.append("parts-joined-cat-style")
     tab, tba = pdbio.dump(a + sep_ab + b), pdbio.dump(b + sep_ba + a)
     xo = util.neutral_options(rng, families=("grid", "protonation", "keep", "swap-display"), classes=classes)
     if case["kind"] == "built" and rng.random() < 0.25:
